@@ -1,3 +1,717 @@
-/- C09: property theorems (stub — not built yet) -/
+import RSVerif.Model.Pipe
+import RSVerif.Lemmas.Pipe
+/-
+C09 — The pipe is a lossless, deadlock-free FIFO byte stream with exact close rules.
+Property theorems only (helper lemmas live in RSVerif.Lemmas.Pipe).
+
+Everything is stated for `Reach p`: ANY backend (memory / file), ANY ring size > 0, ANY finite
+sequence of atomic steps `readSome k | writeSome bs | rclose e | wclose e | buffered | available`
+taken in any order (= every interleaving of one reader thread, one writer thread and any number of
+closing / counting threads; `Read`/`Write` are loops over these steps), including all wrap-arounds of
+the ring and all drain resets.  `p.store.contents` is the queue of bytes written and not yet read.
+-/
 namespace RSVerif.Properties.C09
+open RSVerif RSVerif.Pipe RSVerif.Lemmas.Pipe
+
+/-! ### 0. The invariant, capacities, refinement of the specification -/
+
+/-- the one invariant: it holds initially and every atomic step preserves it -/
+theorem inv_init (b : Backend) (size : Nat) (hs : 0 < size) : Inv (Pipe.init b size) := init_inv b size hs
+
+theorem inv_step {p : Pipe} (h : Inv p) (s : Step) : Inv (p.step s).1 := (step_refines h s).2
+
+theorem inv_run {p : Pipe} (h : Inv p) (steps : List Step) : Inv (p.run steps).1 := run_inv h steps
+
+theorem invariant {p : Pipe} (h : Reach p) : Inv p := h.inv
+
+/-- the unsigned subtractions of `roffset`/`woffset`/`buffered`/`available` never wrap, and the
+    ring is at position 0 whenever it is empty (drain reset) -/
+theorem no_underflow {p : Pipe} (h : Reach p) :
+    p.store.rpos ≤ p.store.wpos ∧ p.store.wpos ≤ p.store.rpos + p.store.size ∧
+    (p.store.rpos = p.store.wpos → p.store.rpos = 0 ∧ p.store.wpos = 0) := by
+  have i := h.inv
+  exact ⟨i.rle, i.wle, fun e => ⟨by have := i.reset e; omega, i.reset e⟩⟩
+
+/-- `align`: a positive multiple of the unit that holds the request, and the smallest such -/
+theorem align_spec (req unit : Nat) (hu : 0 < unit) :
+    0 < align req unit ∧ align req unit % unit = 0 ∧ req ≤ align req unit ∧
+    (unit ≤ req → align req unit < req + unit) ∧ (req < unit → align req unit = unit) := by
+  unfold align
+  by_cases h : req < unit
+  · simp [h]; omega
+  · simp only [h, if_false]
+    have h1 := Nat.div_add_mod (req + unit - 1) unit
+    have h2 := Nat.mod_lt (req + unit - 1) hu
+    have h3 : (req + unit - 1) / unit * unit = unit * ((req + unit - 1) / unit) := Nat.mul_comm _ _
+    refine ⟨by omega, ?_, by omega, fun _ => by omega, fun hc => hc.elim⟩
+    rw [h3]; exact Nat.mul_mod_right _ _
+
+theorem align_pos (req unit : Nat) (hu : 0 < unit) : 0 < align req unit := (align_spec req unit hu).1
+
+/-- both alignment units of the CURRENT source are positive (re-checked on every run) -/
+theorem units_pos : 0 < Generated.C09.pipeBuffSizeAlign ∧ 0 < Generated.C09.pipeFileSizeAlign := by decide
+
+/-- every pipe the public constructors build is covered by the theorems below -/
+theorem constructors_reach (req : Nat) : Reach (newSize req) ∧ Reach (newFilePipe req) ∧ Reach Pipe.new :=
+  ⟨⟨.mem, _, [], align_pos _ _ units_pos.1, rfl⟩, ⟨.file, _, [], align_pos _ _ units_pos.2, rfl⟩,
+   ⟨.mem, _, [], align_pos _ _ units_pos.1, rfl⟩⟩
+
+/-- refinement: every atomic step of the code model is a step of the FIFO specification `Next`
+    (which allows any non-empty partial read/write), under the abstraction `Pipe.abs` -/
+theorem refines_spec {p : Pipe} (h : Reach p) (s : Step) :
+    Next p.abs s (p.step s).2 (p.step s).1.abs := (step_refines h.inv s).1
+
+/-! ### 1. `fifo`: lossless, ordered, no duplication -/
+
+/-- Bytes accepted so far = bytes delivered so far ++ bytes still buffered, as long as the reader has
+    not closed (a reader close discards the buffer).  Through any wrap-arounds and drain resets. -/
+theorem fifo (b : Backend) (size : Nat) (hs : 0 < size) (steps : List Step) :
+    let r := (Pipe.init b size).run steps
+    r.1.rerr = none → writtenOf r.2 = readOutOf r.2 ++ r.1.store.contents := by
+  intro r hr
+  have := (run_hist (init_inv b size hs) steps).1 hr
+  rw [init_contents, List.nil_append] at this
+  exact this
+
+/-- In every history, closes included: what the reader got is a prefix of what the writer wrote. -/
+theorem fifo_prefix (b : Backend) (size : Nat) (hs : 0 < size) (steps : List Step) :
+    let r := (Pipe.init b size).run steps
+    readOutOf r.2 <+: writtenOf r.2 := by
+  intro r
+  have := (run_hist (init_inv b size hs) steps).2
+  rw [init_contents, List.nil_append] at this
+  exact this
+
+/-- the same from any reachable state: the bytes buffered there come out first -/
+theorem fifo_from {p : Pipe} (h : Reach p) (steps : List Step) :
+    let r := p.run steps
+    (r.1.rerr = none → p.store.contents ++ writtenOf r.2 = readOutOf r.2 ++ r.1.store.contents) ∧
+    readOutOf r.2 <+: p.store.contents ++ writtenOf r.2 := run_hist h.inv steps
+
+/-- the buffer never holds more than the capacity -/
+theorem bounded {p : Pipe} (h : Reach p) : p.store.contents.length ≤ p.store.size := by
+  have i := h.inv
+  unfold Store.contents
+  split
+  · simp
+  · rw [length_cells]; have := i.rle; have := i.wle; omega
+
+/-! ### 2. exact result of `readSome` / `writeSome` in terms of the queue -/
+
+/-- what `readSome` returns, for every reachable state and buffer length -/
+theorem read_exact {p : Pipe} (h : Reach p) (k : Nat) :
+    (p.readSome k).2 =
+      if p.rerr ≠ none then .ret [] (some .closed)
+      else if k = 0 then .ret [] (if p.store.contents ≠ [] then none else p.werr)
+      else if p.store.contents ≠ [] then
+        .ret (p.store.contents.take
+          (min k (min p.store.contents.length (p.store.size - p.store.rpos % p.store.size)))) none
+      else match p.werr with
+        | some e => .ret [] (some e)
+        | none => .park := by
+  have i := h.inv
+  obtain hr | ⟨e, hr⟩ := Option.eq_none_or_eq_some p.rerr
+  · simp only [hr, ne_eq, not_true_eq_false, if_false]
+    by_cases hk : k = 0
+    · subst hk
+      rw [Pipe.readSome_zero hr, buffered_eq i hr]
+      by_cases hq : p.store.contents = [] <;> simp [hq]
+    · simp only [hk, if_false]
+      have hk0 : 0 < k := Nat.pos_of_ne_zero hk
+      by_cases hq : p.store.contents = []
+      · have he := (contents_eq_nil_iff i hr).mp hq
+        simp only [hq, not_true_eq_false, if_false]
+        obtain hw | ⟨e, hw⟩ := Option.eq_none_or_eq_some p.werr
+        · rw [Pipe.readSome_park i hr hk0 he hw, hw]
+        · rw [Pipe.readSome_drained i hr hk0 he hw, hw]
+      · have hne : p.store.rpos < p.store.wpos := by
+          have := i.rle
+          have : p.store.rpos ≠ p.store.wpos := fun e => hq ((contents_eq_nil_iff i hr).mpr e)
+          omega
+        obtain ⟨s', n, hrs, _, hn, _, _, _, _⟩ := Pipe.readSome_data i hr hk0 hne
+        simp only [hq, not_false_eq_true, if_true, hrs, length_contents (i.open_ hr), ← hn]
+  · simp [Pipe.readSome_closed hr, hr]
+
+/-- what `writeSome` returns, for every reachable state and data -/
+theorem write_exact {p : Pipe} (h : Reach p) (bs : Bytes) :
+    (p.writeSome bs).2 =
+      if p.werr ≠ none then .ret 0 (some .closed)
+      else match p.rerr with
+        | some e => .ret 0 (some e)
+        | none =>
+          if bs = [] then .ret 0 none
+          else if p.store.contents.length < p.store.size then
+            .ret (min bs.length (min (p.store.size - p.store.contents.length)
+                    (p.store.size - p.store.wpos % p.store.size))) none
+          else .park := by
+  have i := h.inv
+  obtain hw | ⟨e, hw⟩ := Option.eq_none_or_eq_some p.werr
+  · simp only [hw, ne_eq, not_true_eq_false, if_false]
+    obtain hr | ⟨e, hr⟩ := Option.eq_none_or_eq_some p.rerr
+    · simp only [hr]
+      by_cases hb : bs = []
+      · subst hb; simp [Pipe.writeSome_zero hw hr]
+      · simp only [hb, if_false]
+        have hl := length_contents (i.open_ hr)
+        have := i.rle; have := i.wle
+        by_cases hroom : p.store.wpos < p.store.rpos + p.store.size
+        · obtain ⟨s', n, hws, _, hn, _, _, _, _⟩ := Pipe.writeSome_data i hw hr hb hroom
+          have hlt : p.store.contents.length < p.store.size := by omega
+          have e : p.store.size - p.store.contents.length = p.store.size + p.store.rpos - p.store.wpos := by
+            omega
+          simp only [hlt, if_true, hws, e, ← hn]
+        · have hf : p.store.wpos = p.store.rpos + p.store.size := by omega
+          have hlt : ¬ p.store.contents.length < p.store.size := by omega
+          simp only [hlt, if_false, Pipe.writeSome_park i hw hr hb hf]
+    · simp [Pipe.writeSome_readerGone hw hr, hr]
+  · simp [Pipe.writeSome_closed hw, hw]
+
+/-- neither call touches the close state -/
+theorem errs_unchanged (p : Pipe) (k : Nat) (bs : Bytes) :
+    (p.readSome k).1.rerr = p.rerr ∧ (p.readSome k).1.werr = p.werr ∧
+    (p.writeSome bs).1.rerr = p.rerr ∧ (p.writeSome bs).1.werr = p.werr := by
+  refine ⟨?_, ?_, ?_, ?_⟩
+  · unfold Pipe.readSome; repeat' split
+    all_goals rfl
+  · unfold Pipe.readSome; repeat' split
+    all_goals rfl
+  · unfold Pipe.writeSome; repeat' split
+    all_goals rfl
+  · unfold Pipe.writeSome; repeat' split
+    all_goals rfl
+
+/-! ### 3. `block_iff` -/
+
+/-- a read parks ⇔ it wants bytes, the buffer is empty and neither side is closed -/
+theorem read_blocks_iff {p : Pipe} (h : Reach p) (k : Nat) :
+    (p.readSome k).2 = .park ↔ 0 < k ∧ p.store.contents = [] ∧ p.rerr = none ∧ p.werr = none := by
+  rw [read_exact h k]
+  by_cases hr : p.rerr = none <;> by_cases hk : k = 0 <;> by_cases hq : p.store.contents = [] <;>
+    cases hw : p.werr <;> simp [hr, hk, hq] <;> omega
+
+/-- a write parks ⇔ it has bytes, the buffer is full and neither side is closed -/
+theorem write_blocks_iff {p : Pipe} (h : Reach p) (bs : Bytes) :
+    (p.writeSome bs).2 = .park ↔
+      bs ≠ [] ∧ p.store.contents.length = p.store.size ∧ p.rerr = none ∧ p.werr = none := by
+  rw [write_exact h bs]
+  have hb := bounded h
+  by_cases hw : p.werr = none <;> cases hr : p.rerr <;> by_cases hbs : bs = [] <;>
+    by_cases hf : p.store.contents.length < p.store.size <;> simp [hw, hbs, hf] <;> omega
+
+/-- a read that finds data returns at least one byte and at most what was asked for — the oldest bytes -/
+theorem read_progress {p : Pipe} (h : Reach p) {k : Nat} (hk : 0 < k) (hr : p.rerr = none)
+    (hq : p.store.contents ≠ []) :
+    ∃ n, 1 ≤ n ∧ n ≤ k ∧ n ≤ p.store.contents.length ∧
+      (p.readSome k).2 = .ret (p.store.contents.take n) none := by
+  have i := h.inv
+  have hl : 0 < p.store.contents.length := List.length_pos_iff.mpr hq
+  have ho : p.store.rpos % p.store.size < p.store.size := Nat.mod_lt _ i.size_pos
+  refine ⟨min k (min p.store.contents.length (p.store.size - p.store.rpos % p.store.size)),
+    by omega, by omega, by omega, ?_⟩
+  rw [read_exact h k]
+  simp [hr, Nat.ne_of_gt hk, hq]
+
+/-- a write that finds room accepts at least one byte, at most what fits -/
+theorem write_progress {p : Pipe} (h : Reach p) {bs : Bytes} (hb : bs ≠ []) (hr : p.rerr = none)
+    (hw : p.werr = none) (hroom : p.store.contents.length < p.store.size) :
+    ∃ n, 1 ≤ n ∧ n ≤ bs.length ∧ p.store.contents.length + n ≤ p.store.size ∧
+      (p.writeSome bs).2 = .ret n none := by
+  have i := h.inv
+  have hl : 0 < bs.length := List.length_pos_iff.mpr hb
+  have ho : p.store.wpos % p.store.size < p.store.size := Nat.mod_lt _ i.size_pos
+  refine ⟨min bs.length (min (p.store.size - p.store.contents.length)
+    (p.store.size - p.store.wpos % p.store.size)), by omega, by omega, by omega, ?_⟩
+  rw [write_exact h bs]
+  simp [hr, hw, hb, hroom]
+
+/-! ### 4. `no_deadlock` -/
+
+/-- reader and writer are never parked at the same time -/
+theorem never_both_parked {p : Pipe} (h : Reach p) : ¬ (p.rPark = true ∧ p.wPark = true) := by
+  intro ⟨hr, hw⟩
+  have i := h.inv
+  have := (i.rpark hr).1; have := (i.wpark hw).1; have := i.size_pos
+  omega
+
+/-- a parked reader means: empty and nobody closed; a parked writer means: full and nobody closed -/
+theorem parked_condition {p : Pipe} (h : Reach p) :
+    (p.rPark = true → p.store.contents = [] ∧ p.rerr = none ∧ p.werr = none) ∧
+    (p.wPark = true → p.store.contents.length = p.store.size ∧ p.rerr = none ∧ p.werr = none) := by
+  have i := h.inv
+  refine ⟨fun hp => ?_, fun hp => ?_⟩
+  · obtain ⟨he, hr, hw⟩ := i.rpark hp
+    exact ⟨(contents_eq_nil_iff i hr).mpr he, hr, hw⟩
+  · obtain ⟨hf, hr, hw⟩ := i.wpark hp
+    exact ⟨(contents_full_iff i hr).mpr hf, hr, hw⟩
+
+/-- While the reader is parked the writer is not, its next non-empty `writeSome` cannot park: it accepts
+    n ≥ 1 bytes and wakes the reader (`rwait.Signal`), whose retry then finds these bytes. -/
+theorem write_wakes_reader {p : Pipe} (h : Reach p) (hp : p.rPark = true) {bs : Bytes} (hb : bs ≠ []) :
+    p.wPark = false ∧
+    ∃ n, 1 ≤ n ∧ (p.writeSome bs).2 = .ret n none ∧ (p.writeSome bs).1.rPark = false ∧
+      (p.writeSome bs).1.store.contents = bs.take n ∧
+      ∀ k, 0 < k → ((p.writeSome bs).1.readSome k).2 ≠ .park := by
+  have i := h.inv
+  obtain ⟨he, hr, hw⟩ := i.rpark hp
+  have hwp : p.wPark = false := by
+    cases hx : p.wPark with
+    | false => rfl
+    | true => exact absurd ⟨hp, hx⟩ (never_both_parked h)
+  have hroom : p.store.wpos < p.store.rpos + p.store.size := by have := i.size_pos; omega
+  obtain ⟨s', n, hws, hsi', hn, hnpos, hc, hsz, hbk, _, _⟩ := Pipe.writeSome_data i hw hr hb hroom
+  have hq : p.store.contents = [] := (contents_eq_nil_iff i hr).mpr he
+  have hstep : (p.step (.writeSome bs)).1 = (p.writeSome bs).1 := by simp [Pipe.step, hwp]
+  have hreach : Reach (p.writeSome bs).1 := hstep ▸ h.step (.writeSome bs)
+  refine ⟨hwp, n, hnpos, by rw [hws], by rw [hws], by rw [hws]; simp [hc, hq], ?_⟩
+  intro k hk hpark
+  have := (read_blocks_iff hreach k).mp hpark
+  rw [hws] at this
+  have hl : (bs.take n).length = 0 := by
+    have := this.2.1; simp only [hc, hq, List.nil_append] at this; rw [this]; rfl
+  have hbl : 0 < bs.length := List.length_pos_iff.mpr hb
+  simp only [List.length_take] at hl
+  omega
+
+/-- While the writer is parked the reader is not, its next non-empty `readSome` cannot park: it returns
+    n ≥ 1 bytes and wakes the writer (`wwait.Signal`), whose retry then finds room. -/
+theorem read_wakes_writer {p : Pipe} (h : Reach p) (hp : p.wPark = true) {k : Nat} (hk : 0 < k) :
+    p.rPark = false ∧
+    ∃ n, 1 ≤ n ∧ (p.readSome k).2 = .ret (p.store.contents.take n) none ∧ (p.readSome k).1.wPark = false ∧
+      (p.readSome k).1.store.contents = p.store.contents.drop n ∧
+      ∀ bs, ((p.readSome k).1.writeSome bs).2 ≠ .park := by
+  have i := h.inv
+  obtain ⟨hf, hr, hw⟩ := i.wpark hp
+  have hrp : p.rPark = false := by
+    cases hx : p.rPark with
+    | false => rfl
+    | true => exact absurd ⟨hx, hp⟩ (never_both_parked h)
+  have hne : p.store.rpos < p.store.wpos := by have := i.size_pos; omega
+  obtain ⟨s', n, hrs, hsi', hn, hnpos, hc, hsz, hbk, _, _⟩ := Pipe.readSome_data i hr hk hne
+  have hstep : (p.step (.readSome k)).1 = (p.readSome k).1 := by simp [Pipe.step, hrp]
+  have hreach : Reach (p.readSome k).1 := hstep ▸ h.step (.readSome k)
+  refine ⟨hrp, n, hnpos, by rw [hrs], by rw [hrs], by rw [hrs]; exact hc, ?_⟩
+  intro bs hpark
+  have := (write_blocks_iff hreach bs).mp hpark
+  rw [hrs] at this
+  have hl := this.2.1
+  simp only [hc, hsz, List.length_drop] at hl
+  have := (contents_full_iff i hr).mpr hf
+  have := i.size_pos
+  omega
+
+/-- any close wakes both sides -/
+theorem close_wakes_both (p : Pipe) (e : Option Err) :
+    (p.rclose e).rPark = false ∧ (p.rclose e).wPark = false ∧
+    (p.wclose e).rPark = false ∧ (p.wclose e).wPark = false := ⟨rfl, rfl, rfl, rfl⟩
+
+/-- conversely nothing else wakes a parked side: if a step ends the reader's (writer's) wait it is a
+    write that accepted bytes (a read that returned bytes) or a close -/
+theorem wake_only_by_progress_or_close {p : Pipe} (h : Reach p) (s : Step) :
+    (p.rPark = true → (p.step s).1.rPark = false →
+      (∃ bs n, s = .writeSome bs ∧ (p.step s).2 = .w (.ret n none) ∧ 1 ≤ n) ∨
+      (∃ e, s = .rclose e) ∨ (∃ e, s = .wclose e)) ∧
+    (p.wPark = true → (p.step s).1.wPark = false →
+      (∃ k d, s = .readSome k ∧ (p.step s).2 = .r (.ret d none) ∧ d ≠ []) ∨
+      (∃ e, s = .rclose e) ∨ (∃ e, s = .wclose e)) := by
+  have hn := (step_refines h.inv s).1
+  generalize hb : (p.step s).2 = o at hn
+  generalize ha' : (p.step s).1.abs = a' at hn
+  have hr' : (p.step s).1.rPark = a'.rPark := by rw [← ha']; rfl
+  have hw' : (p.step s).1.wPark = a'.wPark := by rw [← ha']; rfl
+  have hr0 : p.rPark = p.abs.rPark := rfl
+  have hw0 : p.wPark = p.abs.wPark := rfl
+  rw [hr', hw', hr0, hw0]
+  generalize p.abs = a at hn
+  cases hn <;> simp_all
+  · intro _
+    refine ⟨by omega, fun hc => ?_⟩
+    simp_all
+  
+/-- `no_deadlock`, in one statement: in every reachable state at most one side is parked, and the side
+    that is not parked makes progress with its next non-trivial step, which un-parks the other. -/
+theorem no_deadlock {p : Pipe} (h : Reach p) :
+    ¬ (p.rPark = true ∧ p.wPark = true) ∧
+    (p.rPark = true → ∀ bs, bs ≠ [] → ∃ n, 1 ≤ n ∧ (p.writeSome bs).2 = .ret n none ∧
+        (p.writeSome bs).1.rPark = false) ∧
+    (p.wPark = true → ∀ k, 0 < k → ∃ d, d ≠ [] ∧ (p.readSome k).2 = .ret d none ∧
+        (p.readSome k).1.wPark = false) := by
+  refine ⟨never_both_parked h, fun hp bs hb => ?_, fun hp k hk => ?_⟩
+  · obtain ⟨_, n, h1, h2, h3, _⟩ := write_wakes_reader h hp hb
+    exact ⟨n, h1, h2, h3⟩
+  · obtain ⟨_, n, h1, h2, h3, _⟩ := read_wakes_writer h hp hk
+    have hf := ((parked_condition h).2 hp).1
+    have := h.inv.size_pos
+    refine ⟨_, ?_, h2, h3⟩
+    intro hc
+    have := congrArg List.length hc
+    simp only [List.length_take, List.length_nil] at this
+    omega
+
+/-! ### 5. `close_rules` -/
+
+/-- the first close of a side fixes its error (`Close()` = EOF for the writer, closed-pipe for the
+    reader); later closes do not change it -/
+theorem close_first_wins (p : Pipe) (e : Option Err) :
+    (p.wclose e).werr = some (p.werr.getD (e.getD .eof)) ∧ (p.wclose e).rerr = p.rerr ∧
+    (p.rclose e).rerr = some (p.rerr.getD (e.getD .closed)) ∧ (p.rclose e).werr = p.werr := by
+  cases hw : p.werr <;> cases hr : p.rerr <;> simp [Pipe.wclose, Pipe.rclose, setOnce, hw, hr]
+
+/-- no step ever clears or changes an error once set -/
+theorem errs_stable (p : Pipe) (s : Step) :
+    (∀ e, p.werr = some e → (p.step s).1.werr = some e) ∧
+    (∀ e, p.rerr = some e → (p.step s).1.rerr = some e) := by
+  have he := errs_unchanged p
+  cases s with
+  | readSome k =>
+    by_cases hp : p.rPark = true <;> simp [Pipe.step, hp, (he k []).1, (he k []).2.1]
+  | writeSome bs =>
+    by_cases hp : p.wPark = true <;> simp [Pipe.step, hp, (he 0 bs).2.2.1, (he 0 bs).2.2.2]
+  | rclose e => refine ⟨fun x hx => ?_, fun x hx => ?_⟩ <;> simp [Pipe.step, Pipe.rclose, setOnce, hx]
+  | wclose e => refine ⟨fun x hx => ?_, fun x hx => ?_⟩ <;> simp [Pipe.step, Pipe.wclose, setOnce, hx]
+  | buffered => exact ⟨fun _ hx => hx, fun _ hx => hx⟩
+  | available => exact ⟨fun _ hx => hx, fun _ hx => hx⟩
+
+/-- After the writer closed with `e`: a read never parks; while bytes are buffered it returns the
+    oldest ones (at least one), and only when the buffer is empty it returns `e`. -/
+theorem read_after_wclose {p : Pipe} (h : Reach p) {e : Err} (hw : p.werr = some e) (hr : p.rerr = none)
+    {k : Nat} (hk : 0 < k) :
+    (p.store.contents ≠ [] → ∃ n, 1 ≤ n ∧ n ≤ k ∧ (p.readSome k).2 = .ret (p.store.contents.take n) none) ∧
+    (p.store.contents = [] → p.readSome k = (p, .ret [] (some e))) := by
+  refine ⟨fun hq => ?_, fun hq => ?_⟩
+  · obtain ⟨n, h1, h2, _, h4⟩ := read_progress h hk hr hq
+    exact ⟨n, h1, h2, h4⟩
+  · exact Pipe.readSome_drained h.inv hr hk ((contents_eq_nil_iff h.inv hr).mp hq) hw
+
+/-- After the writer closed: every write (also a zero-length one) fails with closed-pipe, accepts
+    nothing, changes nothing and does not park. -/
+theorem write_after_wclose {p : Pipe} {e : Err} (hw : p.werr = some e) (bs : Bytes) :
+    p.writeSome bs = (p, .ret 0 (some .closed)) := Pipe.writeSome_closed hw bs
+
+/-- After the writer closed nothing is accepted any more, so (while the reader stays open) what is
+    read afterwards ++ what is still buffered = what was buffered at the close: the reader drains
+    exactly the buffered bytes before it sees the error. -/
+theorem drain_after_wclose {p : Pipe} (h : Reach p) {e : Err} (hw : p.werr = some e) (steps : List Step) :
+    let r := p.run steps
+    writtenOf r.2 = [] ∧ r.1.werr = some e ∧
+    (r.1.rerr = none → p.store.contents = readOutOf r.2 ++ r.1.store.contents) := by
+  have key : ∀ (steps : List Step) (p : Pipe), p.werr = some e →
+      writtenOf (p.run steps).2 = [] ∧ (p.run steps).1.werr = some e := by
+    intro steps
+    induction steps with
+    | nil => intro p hw; exact ⟨rfl, hw⟩
+    | cons s rest ih =>
+      intro p hw
+      rw [run_cons]
+      have hw' := (errs_stable p s).1 e hw
+      have hwr : wrote s (p.step s).2 = [] := by
+        cases s with
+        | writeSome bs =>
+          by_cases hp : p.wPark = true
+          · simp [Pipe.step, hp, wrote]
+          · simp [Pipe.step, hp, wrote, Pipe.writeSome_closed hw]
+        | _ => rfl
+      simp only [writtenOf, hwr, List.nil_append]
+      exact ih _ hw'
+  intro r
+  obtain ⟨k1, k2⟩ := key steps p hw
+  refine ⟨k1, k2, fun hr => ?_⟩
+  have := (run_hist h.inv steps).1 hr
+  rw [k1, List.append_nil] at this
+  exact this
+
+/-- After the reader closed (with `e`): reads fail with closed-pipe, writes fail with the reader's error
+    (closed-pipe if the writer closed too), also zero-length ones; nothing parks, nothing changes,
+    the buffer is gone; `Buffered`/`Available` report the error. -/
+theorem after_rclose {p : Pipe} (h : Reach p) {e : Err} (hr : p.rerr = some e) (k : Nat) (bs : Bytes) :
+    p.readSome k = (p, .ret [] (some .closed)) ∧
+    p.writeSome bs = (p, .ret 0 (some (if p.werr ≠ none then .closed else e))) ∧
+    p.buffered = (0, some e) ∧ p.available = (0, some (p.werr.getD e)) ∧
+    p.store.contents = [] ∧ p.rPark = false ∧ p.wPark = false := by
+  have i := h.inv
+  have hc : p.store.closed = true := by rw [i.closed_iff, hr]; rfl
+  refine ⟨Pipe.readSome_closed hr k, ?_, ?_, ?_, ?_, ?_, ?_⟩
+  · obtain hw | ⟨x, hw⟩ := Option.eq_none_or_eq_some p.werr
+    · simp [Pipe.writeSome_readerGone hw hr, hw]
+    · simp [Pipe.writeSome_closed hw, hw]
+  · simp [Pipe.buffered, hr]
+  · cases hw : p.werr <;> simp [Pipe.available, hr, hw]
+  · simp [Store.contents, hc]
+  · cases hx : p.rPark with
+    | false => rfl
+    | true => have := (i.rpark hx).2.1; rw [hr] at this; cases this
+  · cases hx : p.wPark with
+    | false => rfl
+    | true => have := (i.wpark hx).2.1; rw [hr] at this; cases this
+
+/-! ### 6. `zero_len` -/
+
+/-- A zero-length read never parks and changes nothing: closed-pipe after a reader close, else `nil`
+    while bytes are buffered, else the writer's error (`nil` if the writer is still open). -/
+theorem zero_read {p : Pipe} (h : Reach p) :
+    p.readSome 0 = (p, .ret [] (if p.rerr ≠ none then some .closed
+                                  else if p.store.contents ≠ [] then none else p.werr)) := by
+  obtain hr | ⟨e, hr⟩ := Option.eq_none_or_eq_some p.rerr
+  · rw [Pipe.readSome_zero hr, buffered_eq h.inv hr]
+    by_cases hq : p.store.contents = [] <;> simp [hq, hr]
+  · simp [Pipe.readSome_closed hr, hr]
+
+/-- A zero-length write never parks and changes nothing: closed-pipe after a writer close, else the
+    reader's error after a reader close, else `(0, nil)` — also when the buffer is full. -/
+theorem zero_write (p : Pipe) :
+    p.writeSome [] = (p, .ret 0 (if p.werr ≠ none then some .closed else p.rerr)) := by
+  obtain hw | ⟨e, hw⟩ := Option.eq_none_or_eq_some p.werr
+  · obtain hr | ⟨e, hr⟩ := Option.eq_none_or_eq_some p.rerr
+    · simp [Pipe.writeSome_zero hw hr, hw, hr]
+    · simp [Pipe.writeSome_readerGone hw hr, hw, hr]
+  · simp [Pipe.writeSome_closed hw, hw]
+
+/-! ### 7. `buffered_available` -/
+
+theorem buffered_exact {p : Pipe} (h : Reach p) :
+    p.buffered = match p.rerr with
+      | some e => (0, some e)
+      | none => if p.store.contents ≠ [] then (p.store.contents.length, none) else (0, p.werr) := by
+  obtain hr | ⟨e, hr⟩ := Option.eq_none_or_eq_some p.rerr
+  · simp only [Pipe.buffered, hr, buffered_eq h.inv hr]
+    by_cases hq : p.store.contents = [] <;> simp [hq]
+  · simp [Pipe.buffered, hr]
+
+theorem available_exact {p : Pipe} (h : Reach p) :
+    p.available = match p.werr, p.rerr with
+      | some e, _ => (0, some e)
+      | none, some e => (0, some e)
+      | none, none => (p.store.size - p.store.contents.length, none) := by
+  obtain hw | ⟨e, hw⟩ := Option.eq_none_or_eq_some p.werr
+  · obtain hr | ⟨e, hr⟩ := Option.eq_none_or_eq_some p.rerr
+    · simp [Pipe.available, hw, hr, available_eq h.inv hr]
+    · simp [Pipe.available, hw, hr]
+  · simp [Pipe.available, hw]
+
+/-- with both sides open: Buffered + Available = capacity, Buffered = accepted − delivered -/
+theorem buffered_plus_available (b : Backend) (size : Nat) (hs : 0 < size) (steps : List Step) :
+    let r := (Pipe.init b size).run steps
+    r.1.rerr = none → r.1.werr = none →
+      r.1.buffered.1 + r.1.available.1 = size ∧
+      r.1.buffered.1 + (readOutOf r.2).length = (writtenOf r.2).length := by
+  intro r hr hw
+  have hreach : Reach r.1 := ⟨b, size, steps, hs, rfl⟩
+  have hf : writtenOf r.2 = readOutOf r.2 ++ r.1.store.contents := fifo b size hs steps hr
+  have hb := bounded hreach
+  have hsz : r.1.store.size = size := run_size (init_inv b size hs) steps
+  rw [buffered_exact hreach, available_exact hreach]
+  simp only [hr, hw]
+  have hl := congrArg List.length hf
+  simp only [List.length_append] at hl
+  by_cases hq : r.1.store.contents = []
+  · simp [hq] at hl ⊢; omega
+  · simp only [hq, ne_eq, not_false_eq_true, if_true]; omega
+
+/-! ### 8. both backends: the byte store is always accessed inside its bounds -/
+
+/-- In every reachable open state: the memory store's slice `p.b[offset:offset+maxlen]` lies inside
+    `p.b` (no slice panic), the file store's `ReadAt` range lies inside the file (never a short read,
+    never `io.EOF` from the file), and the file is exactly `min wpos size` bytes long — in particular
+    it is empty (truncated) whenever the ring is drained. -/
+theorem store_access_in_range {p : Pipe} (h : Reach p) (hr : p.rerr = none) (k : Nat) (bs : Bytes) :
+    (roffset k p.store.size p.store.rpos p.store.wpos).2 + (roffset k p.store.size p.store.rpos p.store.wpos).1
+        ≤ p.store.mem.length ∧
+    (woffset bs.length p.store.size p.store.rpos p.store.wpos).2 +
+        (woffset bs.length p.store.size p.store.rpos p.store.wpos).1 ≤ p.store.size ∧
+    (p.store.backend = .mem → p.store.mem.length = p.store.size) ∧
+    (p.store.backend = .file → p.store.mem.length = min p.store.wpos p.store.size) ∧
+    (p.store.backend = .file → p.store.contents = [] → p.store.mem = []) := by
+  have i := h.inv
+  have hm := i.memlen (i.open_ hr)
+  have ho1 : p.store.rpos % p.store.size < p.store.size := Nat.mod_lt _ i.size_pos
+  have ho2 : p.store.wpos % p.store.size < p.store.size := Nat.mod_lt _ i.size_pos
+  have ho3 : p.store.rpos % p.store.size ≤ p.store.rpos := Nat.mod_le _ _
+  have := i.rle; have := i.wle
+  rw [roffset_eq, woffset_eq]
+  refine ⟨?_, by simp only; omega, fun hb => by simpa [memLen, hb] using hm,
+    fun hb => by simpa [memLen, hb] using hm, fun hb hq => ?_⟩
+  · simp only; rw [hm]; unfold memLen; split <;> omega
+  · have he := (contents_eq_nil_iff i hr).mp hq
+    have := i.reset he
+    apply List.eq_nil_of_length_eq_zero
+    rw [hm]; simp only [memLen, hb]; omega
+
+/-- the stores never report an I/O error in a reachable open state (no short `ReadAt`) -/
+theorem store_never_fails {p : Pipe} (h : Reach p) (hr : p.rerr = none) (k : Nat) (bs : Bytes) :
+    (p.store.readSome k).2.2 = none ∧ (p.store.writeSome bs).2.2 = none := by
+  have i := h.inv
+  have hsi := i.sinv hr
+  constructor
+  · by_cases hk : k = 0
+    · subst hk; simp [Store.readSome, hsi.open_, roffset_eq]
+    · by_cases hne : p.store.rpos < p.store.wpos
+      · obtain ⟨s', n, hrs, _⟩ := Store.readSome_spec hsi (Nat.pos_of_ne_zero hk) hne
+        rw [hrs]
+      · have he : p.store.rpos = p.store.wpos := by have := i.rle; omega
+        rw [Store.readSome_empty hsi k he]
+  · by_cases hb : bs = []
+    · subst hb; simp [Store.writeSome, hsi.open_, woffset_eq]
+    · by_cases hroom : p.store.wpos < p.store.rpos + p.store.size
+      · obtain ⟨s', n, hws, _⟩ := Store.writeSome_spec hsi hb hroom
+        rw [hws]
+      · have hf : p.store.wpos = p.store.rpos + p.store.size := by have := i.wle; omega
+        rw [Store.writeSome_full hsi bs hf]
+
+/-- Memory- and file-backed pipes with the same ring size cannot be told apart through the API: every
+    schedule produces the same observations step by step (same bytes, counts, errors, parks). What differs
+    is only where the bytes live (and that the file is truncated on drain / reader close). -/
+theorem backend_irrelevant (size : Nat) (hs : 0 < size) (steps : List Step) :
+    ((Pipe.init .mem size).run steps).2 = ((Pipe.init .file size).run steps).2 :=
+  (sim_run (sim_init size hs) steps).1
+
+/-! ### 9. `Read` / `Write`: every loop iteration is at most one atomic step -/
+
+/-- so every state the two loops (`Sys.stepReader`, `Sys.stepWriter`) can reach is covered above -/
+theorem loops_stay_reachable {s : Sys} (h : Reach s.p) :
+    Reach s.stepReader.1.p ∧ Reach s.stepWriter.1.p := by
+  constructor
+  · unfold Sys.stepReader
+    cases hrt : s.rt with
+    | idle => exact h
+    | reading k =>
+      by_cases hp : s.p.rPark = true
+      · simp [hp]; exact h
+      · have hst : (s.p.step (.readSome k)).1 = (s.p.readSome k).1 := by simp [Pipe.step, hp]
+        have hre := hst ▸ h.step (.readSome k)
+        simp only [hp, Bool.false_eq_true, if_false]
+        split
+        · rename_i heq; rw [heq] at hre; exact hre
+        · rename_i heq; rw [heq] at hre
+          repeat' split
+          all_goals exact hre
+  · unfold Sys.stepWriter
+    cases hwt : s.wt with
+    | idle => exact h
+    | writing rest nn =>
+      by_cases hp : s.p.wPark = true
+      · simp [hp]; exact h
+      · have hst : (s.p.step (.writeSome rest)).1 = (s.p.writeSome rest).1 := by simp [Pipe.step, hp]
+        have hre := hst ▸ h.step (.writeSome rest)
+        simp only [hp, Bool.false_eq_true, if_false]
+        split
+        · rename_i heq; rw [heq] at hre; exact hre
+        · rename_i heq; rw [heq] at hre
+          repeat' split
+          all_goals exact hre
+
+/-- `writeSome` never reports more bytes than it was given -/
+theorem write_count_le {p : Pipe} (h : Reach p) (bs : Bytes) {n : Nat} {err : Option Err}
+    (ho : (p.writeSome bs).2 = .ret n err) : n ≤ bs.length := by
+  rw [write_exact h bs] at ho
+  split at ho
+  · cases ho; omega
+  · split at ho
+    · cases ho; omega
+    · split at ho
+      · cases ho; omega
+      · split at ho
+        · cases ho; omega
+        · cases ho
+
+/-- One iteration of `Write`'s loop, case by case: it keeps `nn + len(rest)` constant while it continues,
+    returns `(nn + n, err)` on an error and returns `nil` only when everything was accepted — so a `Write`
+    that returns `nil` returns `len(b)`, and the chunks it fed to `writeSome` are consecutive pieces of `b`. -/
+theorem write_loop_step {s : Sys} (h : Reach s.p) {rest : Bytes} {nn : Nat} (hw : s.wt = .writing rest nn)
+    (hp : s.p.wPark = false) :
+    match (s.p.writeSome rest).2 with
+    | .park => s.stepWriter = ({ s with p := (s.p.writeSome rest).1 }, none)
+    | .ret n (some e) =>
+        s.stepWriter = ({ s with p := (s.p.writeSome rest).1, wt := .idle }, some ⟨nn + n, some e⟩)
+    | .ret n none =>
+        n ≤ rest.length ∧
+        if n = rest.length then
+          s.stepWriter = ({ s with p := (s.p.writeSome rest).1, wt := .idle }, some ⟨nn + rest.length, none⟩)
+        else
+          s.stepWriter = ({ s with p := (s.p.writeSome rest).1, wt := .writing (rest.drop n) (nn + n) }, none) := by
+  have hle := fun n err => write_count_le h rest (n := n) (err := err)
+  unfold Sys.stepWriter
+  rw [hw]
+  simp only [hp, Bool.false_eq_true, if_false]
+  generalize hres : s.p.writeSome rest = res at hle
+  obtain ⟨p', o⟩ := res
+  cases o with
+  | park => rfl
+  | ret n err =>
+    cases err with
+    | some e => simp
+    | none =>
+      have hn := hle n none rfl
+      refine ⟨hn, ?_⟩
+      by_cases he : n = rest.length
+      · subst he; simp
+      · have : ¬ (rest.length - n = 0) := by omega
+        simp [he, this]
+
+/-- One iteration of `Read`'s loop: it returns as soon as `readSome` delivered bytes or an error, returns
+    `(0, nil)` for an empty buffer argument, and otherwise (woken from the wait) tries again. -/
+theorem read_loop_step {s : Sys} {k : Nat} (hr : s.rt = .reading k) (hp : s.p.rPark = false) :
+    match (s.p.readSome k).2 with
+    | .park => s.stepReader = ({ s with p := (s.p.readSome k).1 }, none)
+    | .ret data err =>
+        if err ≠ none ∨ data ≠ [] then
+          s.stepReader = ({ s with p := (s.p.readSome k).1, rt := .idle }, some ⟨data, err⟩)
+        else if k = 0 then
+          s.stepReader = ({ s with p := (s.p.readSome k).1, rt := .idle }, some ⟨[], none⟩)
+        else s.stepReader = ({ s with p := (s.p.readSome k).1 }, none) := by
+  unfold Sys.stepReader
+  rw [hr]
+  simp only [hp, Bool.false_eq_true, if_false]
+  generalize s.p.readSome k = res
+  obtain ⟨p', o⟩ := res
+  cases o with
+  | park => rfl
+  | ret data err =>
+    cases err with
+    | some e => simp
+    | none =>
+      cases data with
+      | nil => by_cases hk : k = 0 <;> simp [hk]
+      | cons x xs => simp
+
+/-! ### 10. non-vacuity: a history that wraps the ring, drains it, blocks and is woken -/
+
+/-- ring of 4 bytes, memory store: write 3, read 2, write 3 more (wraps: 1 byte at the end of the ring,
+    2 at its start), read up to the ring end, read the rest (drain → positions reset), a read that
+    parks, the write that wakes it, the retry, writer close, drained read gets EOF. -/
+def wrapSchedule : List Step :=
+  [.writeSome [1, 2, 3], .readSome 2, .writeSome [4, 5, 6], .writeSome [5, 6], .buffered, .available,
+   .writeSome [7], .readSome 9, .readSome 9, .readSome 9, .readSome 1, .writeSome [8], .readSome 1,
+   .readSome 1, .wclose none, .readSome 1, .writeSome [9]]
+
+example : ((Pipe.init .mem 4).run wrapSchedule).2.map Prod.snd =
+    [.w (.ret 3 none), .r (.ret [1, 2] none), .w (.ret 1 none), .w (.ret 2 none), .count 4 none,
+     .count 0 none, .w .park, .r (.ret [3, 4] none), .r (.ret [5, 6] none), .r .park, .disabled,
+     .w (.ret 1 none), .r (.ret [8] none), .r .park, .closeOk, .r (.ret [] (some .eof)),
+     .w (.ret 0 (some .closed))] := by decide
+
+/-- the same schedule on the file store gives the same observations -/
+example : ((Pipe.init .file 4).run wrapSchedule).2.map Prod.snd =
+    ((Pipe.init .mem 4).run wrapSchedule).2.map Prod.snd := by decide
+
+/-- the wrapped state really is wrapped: after the first four steps rpos = 2, wpos = 6 > size -/
+example : let p := ((Pipe.init .mem 4).run (wrapSchedule.take 4)).1
+    (p.store.rpos, p.store.wpos, p.store.mem, p.store.contents) = (2, 6, [5, 6, 3, 4], [3, 4, 5, 6]) := by
+  decide
+
+/-- `fifo` instantiated on it -/
+example : writtenOf ((Pipe.init .mem 4).run wrapSchedule).2 = [1, 2, 3, 4, 5, 6, 8] ∧
+    readOutOf ((Pipe.init .mem 4).run wrapSchedule).2 = [1, 2, 3, 4, 5, 6, 8] := by decide
+
+/-- reader close: the parked writer is woken, later writes get the reader's error, reads closed-pipe -/
+example : ((Pipe.init .file 2).run
+      [.writeSome [1, 2, 3], .writeSome [3], .rclose (some (.custom 7)), .writeSome [3], .readSome 1,
+       .buffered, .available, .wclose none, .writeSome [], .available]).2.map Prod.snd =
+    [.w (.ret 2 none), .w .park, .closeOk, .w (.ret 0 (some (.custom 7))), .r (.ret [] (some .closed)),
+     .count 0 (some (.custom 7)), .count 0 (some (.custom 7)), .closeOk, .w (.ret 0 (some .closed)),
+     .count 0 (some .eof)] := by decide
+
+/-- the hypotheses of the theorems are inhabited: these states are reachable and park for real -/
+example : Reach ((Pipe.init .mem 4).run (wrapSchedule.take 7)).1 ∧
+    ((Pipe.init .mem 4).run (wrapSchedule.take 7)).1.wPark = true :=
+  ⟨⟨.mem, 4, _, by decide, rfl⟩, by decide⟩
+
 end RSVerif.Properties.C09
